@@ -577,8 +577,9 @@ class Retrieve:
 
         # Remove the reader from _active_readers
         self._active_readers.remove(reader)
-        for shnum in list(self.remaining_sharemap.keys()):
-            self.remaining_sharemap.discard(shnum, reader.server)
+        # only this share is bad: other shares held by the same server
+        # may be intact, and may be all that is left to read the file from
+        self.remaining_sharemap.discard(reader.shnum, reader.server)
 
         if f.check(BadShareError):
             self.notify_server_corruption(server, shnum, str(f.value))
